@@ -80,6 +80,7 @@ def run(ctx, run):
     run.floor("Hamming decode call sites in the IDL/PFC feed paths", n_src, 10)
     _channel_filter(ctx, run, P.need("vbi_idl_demux_feed", IDL))
     _ci_range(ctx, run)
+    neg.helper_contract(ctx, run)
 
     # ---- RF-IVL --------------------------------------------------------------------------
     n_sub = 0
